@@ -1,6 +1,7 @@
 import Whv.Driver.Util
 import Whv.Driver.Vaa
 import Whv.Model.Processor
+import Whv.Model.Contract
 /-!
 Driver family `processor` (C01, C02, C13, C14, observation gate of C03).
 
@@ -110,6 +111,11 @@ def recFun (st : St) (extra : List ((String × String) × String)) (dig : String
 def good (st : St) (extra : List ((String × String) × String)) (v : Vaa) (dig : String) (g : GSet) : Bool :=
   VaaFam.validB (recFun st extra dig) v.sigs g.keys && decide (quorum g.keys.length ≤ v.sigs.length)
 
+/-- C07 "accepted on chain": the hand model of both contracts' signature sections (`Whv.Model.Contract`) under the guardian
+set `g` — the threshold is `quorum`, which `Whv.Props.C07` proves equal to the formulas translated from both contracts. -/
+def chainAccepts (st : St) (extra : List ((String × String) × String)) (v : Vaa) (dig : String) (g : GSet) : Bool :=
+  Contract.ralAccepts quorum (recFun st extra dig) v.sigs g.keys && Contract.solAccepts quorum (recFun st extra dig) v.sigs g.keys
+
 /-- Parse published / stored bytes for the Specs. `Marshal` can emit an empty payload which `Unmarshal` rejects;
 for judging signatures such bytes are read by appending one byte and dropping it again. -/
 def unmarshalLenient (b : Bytes) : Option Vaa :=
@@ -149,6 +155,10 @@ def specPublish (st : St) (id op : String) (extra : List ((String × String) × 
           match lookupS st.snap dig with
           | none => errs := errs ++ [s!"spec {id} published-without-local-observation {op} digest {dig}"]
           | some g =>
+            -- C07: what the node publishes as complete from its own chain observation names the snapshot set, and the
+            -- contracts verify it against that set
+            if st.viaMsg.contains dig && v.gsIndex = g.index && !chainAccepts st extra v dig g then
+              errs := errs ++ [s!"spec {id} complete-vaa-rejected-on-chain {op} digest {dig}: published with {v.sigs.length} signatures, the contracts require {quorum g.keys.length} of set {g.index} ({g.keys.length} keys)"]
             if !good st extra v dig g then
               errs := errs ++ [s!"spec {id} published-vaa-not-quorum-verifiable {op} digest {dig}: {v.sigs.length} signatures, set of {g.keys.length}"]
             else if st.viaMsg.contains dig && v.gsIndex ≠ g.index then
@@ -168,6 +178,9 @@ def specPublish (st : St) (id op : String) (extra : List ((String × String) × 
         if op = "inb" then
           match st.curSet, inbDig with
           | some g, some dig =>
+            -- C07: an inbound VAA naming the current set is verified on chain against the very set the node used
+            if v.gsIndex = g.index && !chainAccepts st extra v dig g then
+              errs := errs ++ [s!"spec {id} complete-vaa-rejected-on-chain {op} inbound VAA naming the current set {g.index} stored with {v.sigs.length} signatures, the contracts require {quorum g.keys.length} ({g.keys.length} keys)"]
             if !good st extra v dig g then
               errs := errs ++ [s!"spec {id} stored-vaa-not-quorum-verifiable {op} inbound VAA stored without a verifiable quorum of the current set ({v.sigs.length} signatures, set of {g.keys.length})"]
             st := { st with nInboundStored := st.nInboundStored + 1 }
